@@ -200,7 +200,8 @@ def r06_4(ctx):
         ok = False
         for q in ast.walk(g.node):
             if isinstance(q, ast.AsyncWith) and any(isinstance(it.context_expr, ast.Call) and it.context_expr.func is nnode for it in q.items):
-                ok = g.short == "ProtocolHandler.command"
+                # (which method holds the `async with` is decided by the exploration above: send and wait must be inside it)
+                ok = g.cls is not None and "ProtocolHandler" in g.cls.base_names()
             if isinstance(q, ast.Attribute) and q.value is nnode and q.attr in ("locked", "value", "max_value"):
                 ok = True
         ctx.require(ok, f"semaphore-use:{g.short}", f"send semaphore used in {g.short} line {nnode.lineno} other than `async with` in command()",
